@@ -197,6 +197,7 @@ func ruleFileOwnership(c *eng.Ctx) {
 		cl + "(*segment).Delete":               "removes the segment's files",
 		cl + "(*segment).newReplacement":       "discards files left by an interrupted clean/truncate before creating the replacement segment",
 		cl + "(*segment).rebuildIndex":         "removes a corrupt index before rebuilding it",
+		cl + "(*segment).setupIndex":           "recovery: cuts a partial message set off the end of the log it is opening",
 		cl + "newIndex":                        "creates/opens and pre-allocates the index file",
 		cl + "(*index).writeAt":                "grows the index file and writes the mmap",
 		cl + "(*index).shrink":                 "truncates the index to its contents",
